@@ -25,15 +25,15 @@ import (
 // often Z3 proved it unreachable for a concretisation). The monitor replays each vector through the
 // real routine (via the element methods) and compares limb for limb with integer arithmetic.
 
-type edgeVec struct {
+type zvEdgeVec struct {
 	Fn    string     `json:"fn"`
 	Site  string     `json:"site"`
 	Event string     `json:"event"`
 	Args  [][]string `json:"args"`
 }
 
-type edgeFile struct {
-	Vectors []edgeVec `json:"vectors"`
+type zvEdgeFile struct {
+	Vectors []zvEdgeVec `json:"vectors"`
 	Report  map[string]struct {
 		EventClasses int             `json:"event_classes"`
 		Reached      int             `json:"reached"`
@@ -53,15 +53,15 @@ func TestVerifC16Edges(t *testing.T) {
 		r.Inconclusive("carry-event fixture: " + err.Error())
 		return
 	}
-	var ef edgeFile
+	var ef zvEdgeFile
 	if err := json.Unmarshal(data, &ef); err != nil {
 		r.Inconclusive("carry-event fixture: " + err.Error())
 		return
 	}
 	R := new(big.Int).Lsh(big.NewInt(1), 256)
-	fields := map[bool]*fieldOps{false: fieldP(), true: fieldN()}
+	fields := map[bool]*zvFieldOps{false: zvFieldP(), true: zvFieldN()}
 	limbs4 := func(v *big.Int) [4]uint64 {
-		ls := limbsOf(v)
+		ls := zvLimbsOf(v)
 		return [4]uint64{ls[0], ls[1], ls[2], ls[3]}
 	}
 	perFn := map[string]int{}
@@ -85,7 +85,7 @@ func TestVerifC16Edges(t *testing.T) {
 				}
 				l[i] = x
 			}
-			if fromLimbs(l).Cmp(m) >= 0 {
+			if zvFromLimbs(l).Cmp(m) >= 0 {
 				okArgs = false
 			}
 			args = append(args, l)
@@ -94,10 +94,10 @@ func TestVerifC16Edges(t *testing.T) {
 			r.Inconclusive("carry-event fixture: malformed vector for " + v.Fn)
 			continue
 		}
-		A := fromLimbs(args[0])
+		A := zvFromLimbs(args[0])
 		var B *big.Int
 		if len(args) > 1 {
-			B = fromLimbs(args[1])
+			B = zvFromLimbs(args[1])
 		}
 		mod := func(x *big.Int) *big.Int { return x.Mod(x, m) }
 		var got [4]uint64
